@@ -146,7 +146,7 @@ func (h *harness) executeOne(c Case, verbose bool) *failure {
 			cv.Vars[k] = VarVal{"bool", strconv.FormatBool(x)}
 		}
 	}
-	p, skip := h.prepare(cv)
+	p, skip := h.prepareFor(cv, w.api.Schema())
 	if verbose {
 		fmt.Printf("implementation: Execute called=%v RequestInfo.Cost=%d body=%s\n", w.called, w.cost, body)
 	}
